@@ -470,6 +470,32 @@ func (e Element) IsVoidElement() bool {
 	return ok
 }
 
+// indentChildren reports whether the children are written on their own, indented lines: when they were not all
+// on the start tag's line in the source, or when one of them will be written with a start tag that spans lines.
+func (e Element) indentChildren() bool {
+	return e.IndentChildren || startTagsSpanLines(e.Children)
+}
+
+func startTagsSpanLines(nodes []Node) bool {
+	for _, n := range nodes {
+		if el, isElement := n.(Element); isElement {
+			if el.IndentAttrs || hasConditionalAttribute(el.Attributes) || startTagsSpanLines(el.Children) {
+				return true
+			}
+		}
+	}
+	return false
+}
+
+func hasConditionalAttribute(attrs []Attribute) bool {
+	for _, a := range attrs {
+		if _, ok := a.(ConditionalAttribute); ok {
+			return true
+		}
+	}
+	return false
+}
+
 func (e Element) hasNonWhitespaceChildren() bool {
 	for _, c := range e.Children {
 		if _, isWhitespace := c.(Whitespace); !isWhitespace {
@@ -523,11 +549,14 @@ func (e Element) Write(w io.Writer, indent int) error {
 	if err := writeIndent(w, indent, "<", e.Name); err != nil {
 		return err
 	}
+	// A conditional attribute is written on several lines, so the attributes of an element that has
+	// one are always indented, otherwise formatting the result again would change it.
+	indentAttrs := e.IndentAttrs || hasConditionalAttribute(e.Attributes)
 	for i := range e.Attributes {
 		a := e.Attributes[i]
 		// Only the conditional attributes get indented.
 		var attrIndent int
-		if e.IndentAttrs {
+		if indentAttrs {
 			if _, err := w.Write([]byte("\n")); err != nil {
 				return err
 			}
@@ -542,14 +571,14 @@ func (e Element) Write(w io.Writer, indent int) error {
 		}
 	}
 	var closeAngleBracketIndent int
-	if e.IndentAttrs {
+	if indentAttrs {
 		if _, err := w.Write([]byte("\n")); err != nil {
 			return err
 		}
 		closeAngleBracketIndent = indent
 	}
 	if e.hasNonWhitespaceChildren() {
-		if e.IndentChildren {
+		if e.indentChildren() {
 			if err := writeIndent(w, closeAngleBracketIndent, ">\n"); err != nil {
 				return err
 			}
@@ -667,7 +696,7 @@ func isBlockNode(node Node) bool {
 	case ForExpression:
 		return true
 	case Element:
-		return n.IsBlockElement() || n.IndentChildren
+		return n.IsBlockElement() || n.indentChildren()
 	}
 	return false
 }
